@@ -51,6 +51,9 @@ func mcScenario(name string) scenario {
 		sc.Specs = []env.PodSpec{{Name: "s-0", Kind: "sts", App: "s", Policy: 0}}
 		sc.Sts["s"] = 2
 		sc.Cloud = true
+	case "sts-syncall":
+		sc.Specs = []env.PodSpec{{Name: "s-0", Kind: "sts", App: "s", Policy: 0}, {Name: "s-1", Kind: "sts", App: "s", Policy: 1}}
+		sc.Sts["s"] = 2
 	case "sts-two":
 		sc.Specs = []env.PodSpec{{Name: "s-0", Kind: "sts", App: "s", Policy: 0}, {Name: "s-1", Kind: "sts", App: "s", Policy: 0}}
 		sc.Sts["s"] = 2
@@ -182,6 +185,14 @@ func (d *driver) replay(id int, s schedule) {
 			}
 		case "StartResync":
 			d.startResync()
+		case "StartSyncAll":
+			d.startSyncAll()
+		case "KubeletRun":
+			if v, ok := truth[a.Pod]; ok && v.Phase == "Pending" && v.Node != "" && d.w.SetPhase(a.Pod, corev1.PodRunning) {
+				d.emit(M{"ev": "KubeletRun", "pod": a.Pod})
+			} else {
+				skipped++
+			}
 		case "StartApiRelease":
 			// the model's IP names need not be the code's choice: address the IP by its key
 			mem, _, _ := env.ProjectMem(d.w.Inner)
